@@ -631,6 +631,12 @@ static Token *subst(Token *tok, MacroArg *args, bool is_objlike) {
 
       if (arg->tok->kind == TK_EOF) {
         MacroArg *arg2 = find_arg(args, rhs);
+        if (arg2 && equal(rhs->next, "##")) {
+          // `a##b##c`: the empty a pasted to b is b, which is in turn
+          // the (possibly empty) left operand of the next ##.
+          tok = rhs;
+          continue;
+        }
         if (arg2) {
           cur = copy_arg(cur, arg2->tok, rhs);
         } else {
